@@ -27,7 +27,7 @@ def build (name : String) (gmw : Bool) (par : Nat) (x y w : List Nat) (nz : Nat)
   | "addks" => ok (ksAdder x y nz)
   | "subks" => ok (ksSubtractor x y nz)
   | "mul" => newMultiplier gmw x y nz
-  | "mularray" => arrayMultiplier x y nz
+  | "mularray" => ok (arrayMultiplier x y nz)
   | "mulwallace" => ok (wallace x y nz)
   | "mulkara" => karatsuba gmw par (2 * mx + 8) x y nz
   | "ugt" => ok (comparator false .gt x y)
@@ -51,12 +51,18 @@ def build (name : String) (gmw : Bool) (par : Nat) (x y w : List Nat) (nz : Nat)
   | "mux" => newMUX (w.getD 0 0) x y nz
   | "index" => ok (newIndex par x y)
   | "hamming" => ok (hamming gmw x y nz)
+  | "udiv" => if nz ≤ mx ∧ !gmw then ok (do let d ← uDividerLong gmw x y nz 0; pure d.1) else pure none
+  | "umod" => if nz ≤ mx ∧ !gmw then ok (do let d ← uDividerLong gmw x y 0 nz; pure d.2) else pure none
+  | "udivmod" => if nz ≤ mx ∧ !gmw then ok (do let d ← uDividerLong gmw x y nz nz; pure (d.1 ++ d.2)) else pure none
+  | "udivlong" => if nz ≤ mx then ok (do let d ← uDividerLong gmw x y nz nz; pure (d.1 ++ d.2)) else pure none
+  | "idiv" => if nz ≤ mx ∧ !gmw then ok (do let d ← iDivider gmw x y nz 0; pure d.1) else pure none
+  | "imod" => if nz ≤ mx ∧ !gmw then ok (do let d ← iDivider gmw x y 0 nz; pure d.2) else pure none
   | _ => pure none
 
 def known (name : String) : Bool :=
   ["add", "sub", "addks", "subks", "mul", "mularray", "mulwallace", "mulkara", "ugt", "uge", "ult", "ule",
    "igt", "ige", "ilt", "ile", "eq", "neq", "band", "bor", "bxor", "bclr", "land", "lor", "bts", "btc",
-   "mux", "index", "hamming"].contains name
+   "mux", "index", "hamming", "udiv", "umod", "udivmod", "udivlong", "idiv", "imod"].contains name
 
 /-- Build like the harness: inputs `x ‖ y ‖ w`, optional prologue, builder, `ret`. -/
 def buildCircuit (name : String) (gmw pro : Bool) (nx ny nw nz par : Nat) : Option (St × List Nat) :=
